@@ -191,6 +191,34 @@ def run(ctx):
                                     "rect": [[x_lo, y_lo], [x_hi, y_hi]], "tol": tol})
                 part.count("point_cases")
                 part.count("big_int_cases")
+    # infinite values and bounds (an unlimited axis): legal for any lower <= upper, compared
+    # exactly by the language; expectations straight from the statement, no rationals needed
+    inf = math.inf
+    plot_utils = _lib()
+    for low, high in ((0, 10), (-inf, 0), (0, inf), (-inf, inf), (5, 5), (inf, inf), (-inf, -inf)):
+        for value in (-inf, -1, 0, 5, 10, 11, inf):
+            want = low if value < low else (high if value > high else value)
+            outside = value < low or value > high
+            for tol in (0, 0.5):
+                far = value < low - tol or value > high + tol
+                try:
+                    got = [plot_utils.checkLimits(value, low, high),
+                           plot_utils.checkLimitsTol(value, low, high, tol),
+                           plot_utils.constrainLimits(value, low, high),
+                           plot_utils.point_in_bounds([value, 1], [[low, 0], [high, 2]], tol)]
+                except Exception as exc:    # pylint: disable=broad-except
+                    got = repr(exc)
+                expect = [(want, outside), (want, far), want, not far]
+                if got != expect and not (isinstance(got, list) and
+                                          [tuple(g) if isinstance(g, (list, tuple)) else g for g in got]
+                                          == expect):
+                    part.violation(f"infinite:{value}:{low}:{high}:{tol}",
+                                   f"value={value!r} lower={low!r} upper={high!r} tolerance={tol!r}: "
+                                   f"[checkLimits, checkLimitsTol, constrainLimits, point_in_bounds] "
+                                   f"= {got!r}, expected {expect!r}",
+                                   {"kind": "infinite", "case": [repr(value), repr(low), repr(high), tol]})
+                part.count("scalar_cases")
+                part.count("infinite_cases")
     from .. import callforms              # pylint: disable=import-outside-toplevel
     part.merge(callforms.explore("C18"))
     cnt = part.counters
@@ -220,7 +248,29 @@ def replay(case):
     if case.get("kind") == "callform":
         from .. import callforms          # pylint: disable=import-outside-toplevel
         return callforms.replay(case)
+    if case["kind"] == "infinite":
+        return _replay_infinite(case["case"])
     if case["kind"] == "scalar":
         return [m for _c, m in check_scalar(*case["case"])]
     rect = (tuple(case["rect"][0]), tuple(case["rect"][1]))
     return [m for _c, m in check_point(tuple(case["point"]), rect, case["tol"])]
+
+
+def _replay_infinite(case):
+    conv = lambda t: float(t) if "inf" in str(t) else (float(t) if "." in str(t) else int(t))   # noqa: E731
+    value, low, high = (conv(c) for c in case[:3])
+    tol = case[3]
+    plot_utils = _lib()
+    want = low if value < low else (high if value > high else value)
+    outside = value < low or value > high
+    far = value < low - tol or value > high + tol
+    try:
+        got = [tuple(plot_utils.checkLimits(value, low, high)),
+               tuple(plot_utils.checkLimitsTol(value, low, high, tol)),
+               plot_utils.constrainLimits(value, low, high),
+               plot_utils.point_in_bounds([value, 1], [[low, 0], [high, 2]], tol)]
+    except Exception as exc:                # pylint: disable=broad-except
+        return [f"raised {exc!r}"]
+    expect = [(want, outside), (want, far), want, not far]
+    return [] if got == expect else [f"value={value!r} lower={low!r} upper={high!r} tolerance="
+                                     f"{tol!r}: {got!r}, expected {expect!r}"]
